@@ -10,6 +10,7 @@ import (
 	"sort"
 	"strings"
 
+	"github.com/bitcoin-sv/block-headers-service/config"
 	"github.com/bitcoin-sv/block-headers-service/metrics"
 )
 
@@ -159,7 +160,6 @@ const c09Victim = "http://c09.invalid/victim"
 // prepare makes the request "effective": if the handler of a state-changing route ran, a table would change.
 // Returns the concrete path (+query) and body for the route pattern.
 func (e *c09Env) prepare(method, pattern string) (target, body string) {
-	adm := map[string]string{"Authorization": "Bearer " + e.A}
 	target = c09Concrete(pattern)
 	if method == "POST" || method == "PUT" || method == "PATCH" {
 		body = "{}"
@@ -167,11 +167,7 @@ func (e *c09Env) prepare(method, pattern string) (target, body string) {
 	switch {
 	case pattern == "/api/v1/access/:token" && method == "DELETE":
 		if e.D == "" || e.fs.TableDigest("tokens") != e.dTokens {
-			code, out := e.fs.Do("POST", "/api/v1/access", "", adm)
-			var t struct {
-				Token string `json:"token"`
-			}
-			if code == 200 && json.Unmarshal([]byte(out), &t) == nil {
+			if t, err := e.fs.Services.Tokens.GenerateToken(); err == nil && t != nil {
 				e.D = t.Token
 			}
 			e.dTokens = e.fs.TableDigest("tokens")
@@ -181,14 +177,13 @@ func (e *c09Env) prepare(method, pattern string) (target, body string) {
 		e.nhook++
 		body = fmt.Sprintf(`{"url":"http://c09.invalid/hook-%d","requiredAuth":{"type":"BEARER","token":"t","header":"h"}}`, e.nhook)
 	case pattern == "/api/v1/webhook" && method == "DELETE":
-		e.fs.Do("POST", "/api/v1/webhook", `{"url":"`+c09Victim+`","requiredAuth":{"type":"BEARER","token":"t","header":"h"}}`, adm)
+		_, _ = e.fs.Services.Webhooks.CreateWebhook("BEARER", "h", "t", c09Victim)
 		target += "?url=" + c09Victim
 	case pattern == "/api/v1/webhook" && method == "GET":
 		target += "?url=" + c09Victim
 	}
 	return target, body
 }
-
 
 func (e *c09Env) subst(t string) string {
 	return strings.NewReplacer("$A", e.A, "$U", e.U, "$R", e.R, "$X", e.X).Replace(t)
@@ -211,13 +206,11 @@ func (e *c09Env) open(k c09Cfg, dir string) error {
 	e.k, e.fs, e.routes = k, fs, rs
 	e.A = fs.Cfg.HTTP.AuthToken
 	e.X = c10Unknown("X")
+	// the fixture tokens are made through the service layer (not through the API under test)
 	mk := func() (string, error) {
-		code, body := fs.Do("POST", "/api/v1/access", "", map[string]string{"Authorization": "Bearer " + e.A})
-		var t struct {
-			Token string `json:"token"`
-		}
-		if code != 200 || json.Unmarshal([]byte(body), &t) != nil || !isAlnum32(t.Token) {
-			return "", fmt.Errorf("setup: POST /api/v1/access -> %d %s", code, body)
+		t, err := fs.Services.Tokens.GenerateToken()
+		if err != nil || t == nil || !isAlnum32(t.Token) {
+			return "", fmt.Errorf("setup: GenerateToken: %v", err)
 		}
 		return t.Token, nil
 	}
@@ -227,9 +220,10 @@ func (e *c09Env) open(k c09Cfg, dir string) error {
 	if e.R, err = mk(); err != nil {
 		return err
 	}
-	if code, body := fs.Do("DELETE", "/api/v1/access/"+e.R, "", map[string]string{"Authorization": "Bearer " + e.A}); code != 200 {
-		return fmt.Errorf("setup: DELETE /api/v1/access -> %d %s", code, body)
+	if err := fs.Services.Tokens.DeleteToken(e.R); err != nil {
+		return fmt.Errorf("setup: DeleteToken: %v", err)
 	}
+	e.D, e.dTokens = "", ""
 	if e.U == e.R || e.U == e.A || e.R == e.A {
 		return fmt.Errorf("setup: generated tokens not distinct")
 	}
@@ -272,8 +266,11 @@ func (e *c09Env) request(method, pattern, hdr, query string) (obs string) {
 		Code    string `json:"code"`
 		Message string `json:"message"`
 	}
+	code9 := er.Code
 	if json.Unmarshal([]byte(out), &er) != nil || er.Code == "" || er.Message == "" || strings.ContainsAny(er.Code, " \t\n") {
-		return "401 UNSTRUCTURED"
+		code9 = "UNSTRUCTURED"
+	} else {
+		code9 = er.Code
 	}
 	ch := []string{}
 	for i, n := range []string{"tokens", "webhooks", "headers"} {
@@ -282,9 +279,9 @@ func (e *c09Env) request(method, pattern, hdr, query string) (obs string) {
 		}
 	}
 	if len(ch) > 0 {
-		return "401 " + er.Code + " CHANGED(" + strings.Join(ch, ",") + ")"
+		return "401 " + code9 + " CHANGED(" + strings.Join(ch, ",") + ")"
 	}
-	return "401 " + er.Code + " unchanged"
+	return "401 " + code9 + " unchanged"
 }
 
 func c09Slow(r c09Route) bool {
@@ -406,6 +403,13 @@ func runC09(c *Ctx) error {
 		}
 		c.Meta("routes_cfg_"+k.String(), fmt.Sprint(len(e.routes)))
 		e.fs.Shutdown()
+	}
+	// observation recorded in the evidence (not a case): an empty http.auth_token is accepted by the
+	// configuration; the model then says that "Bearer " (empty token) is the admin credential.
+	if s, err := NewStack(StackOpts{Dir: filepath.Join(base, "empty-admin"), UseAuth: true, Mutate: func(cf *config.AppConfig) { cf.HTTP.AuthToken = "" }}); err == nil {
+		code, body := s.Do("GET", "/api/v1/access", "", map[string]string{"Authorization": "Bearer "})
+		c.Meta("observation_empty_admin_token", fmt.Sprintf("auth_token=\"\" (not rejected by config validation): GET /api/v1/access with 'Authorization: Bearer ' -> %d %s", code, strings.TrimSpace(body)))
+		s.Close()
 	}
 	return nil
 }
